@@ -58,7 +58,7 @@ mod verif_c09_velocity {
         r
     }
 
-    //@ob id=C09.velocity.no_information props=C09 tier=quick kind=harness fns=ehs/base.rs:track_and_groundspeed draw=frame28
+    //@ob id=C09.velocity.no_information props=C09,C01 tier=quick kind=harness fns=ehs/base.rs:track_and_groundspeed draw=frame28
     //@region all long frames in which the east-west or north-south velocity field is 0 ('no information'), both subtypes: no ground speed and no track
     #[kani::proof]
     #[kani::unwind(34)]
@@ -84,7 +84,7 @@ mod verif_c09_velocity {
         (m, ss, ve.unwrap(), vn.unwrap(), r)
     }
 
-    //@ob id=C09.velocity.speed props=C09 tier=quick kind=harness fns=ehs/base.rs:track_and_groundspeed draw=frame28
+    //@ob id=C09.velocity.speed props=C09,C01 tier=quick kind=harness fns=ehs/base.rs:track_and_groundspeed draw=frame28
     //@region all long frames with both component fields non-zero (all 2x1023x2x1023 sign/magnitude pairs), both subtypes: components = +/-(field-1); sqrt taken of Vew^2+Vns^2, atan2 of (Vew, Vns); ground speed = floor(sqrt) (x4, within 4 kt, supersonic)
     #[kani::proof]
     #[kani::unwind(34)]
@@ -113,7 +113,7 @@ mod verif_c09_velocity {
         kani::cover!(true, "reach_end");
     }
 
-    //@ob id=C09.velocity.track props=C09 tier=quick kind=harness fns=ehs/base.rs:track_and_groundspeed draw=frame28
+    //@ob id=C09.velocity.track props=C09,C01 tier=quick kind=harness fns=ehs/base.rs:track_and_groundspeed draw=frame28
     //@region same frames: track = floor(degrees(angle)) brought into [0,360), for every angle in [-pi,pi] the arctangent may return
     #[kani::proof]
     #[kani::unwind(34)]
